@@ -1191,6 +1191,17 @@ def judge_c13(ops, impl):
                 want = [w.routers[rid].name for rid in g['routers'] if rid in w.routers]
                 if names != want:
                     bad.append((i, 'routers of the group are %r, the history of Add/New/Remove leaves %r in that order' % (names, want)))
+        if toks[0] == 'group-router':
+            g = w.groups.get(int(toks[1]))
+            if g is not None:
+                want = [w.routers[rid].name for rid in g['routers'] if rid in w.routers]
+                name = decB(toks[2])
+                if obs.startswith('fault'):
+                    bad.append((i, 'Group.Router(%r) raised a runtime fault (routers of the group: %r)' % (name, want)))
+                elif obs == 'grouter %!' and name in want:
+                    bad.append((i, 'Group.Router(%r) finds nothing although the history of Add/New/Remove leaves %r' % (name, want)))
+                elif obs.startswith('grouter ') and obs != 'grouter %!' and (decB(obs.split(' ')[1]) != name or name not in want):
+                    bad.append((i, 'Group.Router(%r) returns the router %r; the history of Add/New/Remove leaves %r' % (name, decB(obs.split(' ')[1]), want)))
         if toks[0] != 'gserve' or not obs.startswith('call '):
             continue
         f = fields(obs)
@@ -1674,6 +1685,29 @@ def judge_c07(ops, impl):
                 bad.append((i, 'a brand-new router answers OPTIONS * with %s' % f['methods']))
     return bad
 
+def judge_nested(ops, impl):
+    """op nserve: the handler of the outer request serves a second request on the same router and then re-reads its own
+    parameters: it must still see exactly what it saw before (request contexts are pooled and reused)"""
+    bad = []
+    for i, (line, obs) in enumerate(zip(ops, impl)):
+        if not line.startswith('nserve ') or ' nested={' not in obs:
+            continue
+        m = re.match(r'call .*? params=(\S+) .*? nested=\{.*\} after=(\S+)$', obs)
+        if not m:
+            continue
+        if m.group(1) != m.group(2):
+            bad.append((i, 'two requests alive at once on one router: the outer request saw parameters %s before and %s after its handler served a sub-request' % (m.group(1)[:60], m.group(2)[:60])))
+        mi = re.search(r' nested=\{(call .*?|nocall) => (\S+)', obs)
+        t = line.split()
+        if mi and mi.group(1).startswith('call ') and ' base=user:' in mi.group(1):
+            # the sub-request's own parameters spell its own path (it shares nothing with the outer request)
+            ip = re.search(r' params=(\S+) ', mi.group(1)).group(1)
+            vals = [v for _, v in decM(ip)]
+            path = decB(t[8])
+            if any(v not in path for v in vals):
+                bad.append((i, 'the sub-request reports parameters %s that are not part of its own path %r' % (ip[:60], path)))
+    return bad
+
 EXEC = None   # set by bin/check: runs an op list on the implementation and returns its observation lines
 
 def is_decoy_line(line):
@@ -1701,7 +1735,7 @@ JUDGES = {
     'C04': [judge_c04, judge_c03],
     'C05': [judge_nofault, judge_c05_agree],
     'C06': [judge_c03, judge_c04, judge_nofault],
-    'C07': [judge_c07, judge_c07_decoys],
+    'C07': [judge_c07, judge_c07_decoys, judge_nested],
     'C08': [judge_c08],
     'C09': [judge_c09, judge_c09_factories],
     'C10': [judge_c10, judge_c01],      # C01's alignment check = "URL from the captured parameters reproduces the path"
@@ -1710,7 +1744,7 @@ JUDGES = {
     'C13': [judge_c13, judge_c09],
     'C14': [judge_c14, judge_nofault],
     'C15': [judge_c15],
-    'C16': [judge_c16],
+    'C16': [judge_c16, judge_nested],
     'C17': [judge_c17],
     'C18': [judge_c18, judge_c18_register],
     'C19': [judge_c19, judge_c03],
